@@ -666,20 +666,21 @@ fn scenario_watch(sc: &str) -> Result<Violations, String> {
     db.set_value_version(&"k".to_string(), &"5".to_string(), 3, ValueStatus::Ok, 1, 2, 3);
     let (sa, mut ra): (Sender<String>, Receiver<String>) = channel(1000);
     let (sb, mut rb): (Sender<String>, Receiver<String>) = channel(1000);
-    let mut sub = [false, false];
+    let mut sub = [0usize, 0usize];   // number of registrations of each client for k (`d` = watch again without unwatching: a second registration)
     let mut expect = [0usize, 0usize];
     let mut v: Violations = vec![];
     for ev in sc.split('.').filter(|e| !e.is_empty()) {
         let who = if ev.ends_with('B') { 1 } else { 0 };
         let snd = if who == 1 { &sb } else { &sa };
         match &ev[0..1] {
-            "w" => { if !sub[who] { watch_key(&"k".to_string(), snd, &db); sub[who] = true; } }
-            "u" => { unwatch_key(&"k".to_string(), snd, &db); sub[who] = false; }
-            "x" => { unwatch_all(snd, &db); sub[who] = false; }
+            "w" => { if sub[who] == 0 { watch_key(&"k".to_string(), snd, &db); sub[who] = 1; } }
+            "d" => { watch_key(&"k".to_string(), snd, &db); sub[who] += 1; }
+            "u" => { unwatch_key(&"k".to_string(), snd, &db); sub[who] = 0; }
+            "x" => { unwatch_all(snd, &db); sub[who] = 0; }
             "o" => { watch_key(&"other".to_string(), snd, &db); }
-            "s" => { set_key_value("k".into(), "7".into(), -1, &db, &dbs); for w in 0..2 { if sub[w] { expect[w] += 2; } } }
-            "i" => { db.inc_value("k".into(), 1); for w in 0..2 { if sub[w] { expect[w] += 2; } } }
-            "r" => { remove_key(&"k".to_string(), &db); for w in 0..2 { if sub[w] { expect[w] += 1; } } }
+            "s" => { set_key_value("k".into(), "7".into(), -1, &db, &dbs); for w in 0..2 { expect[w] += 2 * sub[w]; } }
+            "i" => { db.inc_value("k".into(), 1); for w in 0..2 { expect[w] += 2 * sub[w]; } }
+            "r" => { remove_key(&"k".to_string(), &db); for w in 0..2 { expect[w] += sub[w]; } }
             "f" => { set_key_value("k".into(), "zz".into(), 0, &db, &dbs); }
             _ => return Err("bad event".into()),
         }
@@ -688,6 +689,7 @@ fn scenario_watch(sc: &str) -> Result<Violations, String> {
             let ok = got[w].len() == expect[w] && got[w].iter().all(|m| m.starts_with("changed k ") || m.starts_with("changed-version k ") || m == "removed k\n");
             chk(&mut v, "C03.subscription-window", ok);
             chk(&mut v, "C03.watch-appends", ok); chk(&mut v, "C03.watch-frame", ok);
+            chk(&mut v, "C03.unwatch-all-only-mine", ok || !sc.contains('x')); chk(&mut v, "C03.unwatch-only-mine", ok || !sc.contains('u'));
             chk(&mut v, "C03.emit-set", ok || !(ev == "s")); chk(&mut v, "C03.emit-inc", ok || !(ev == "i")); chk(&mut v, "C03.emit-removed", ok || !(ev == "r"));
             chk(&mut v, "C03.no-emit-refused", ok || !(ev == "f"));
             expect[w] = 0;
@@ -696,7 +698,7 @@ fn scenario_watch(sc: &str) -> Result<Violations, String> {
     Ok(v)
 }
 fn all_watch_scenarios() -> Vec<String> {
-    let evs = ["wA", "wB", "uA", "uB", "xA", "xB", "oA", "s", "i", "r", "f"];
+    let evs = ["wA", "wB", "dA", "uA", "uB", "xA", "xB", "oA", "s", "i", "r", "f"];
     let mut out = vec![];
     fn rec(evs: &[&str], cur: &mut Vec<String>, depth: usize, out: &mut Vec<String>) {
         if !cur.is_empty() { out.push(cur.join(".")); }
@@ -827,7 +829,7 @@ fn scenario_snapshot(sc: &str) -> Result<Violations, String> {
             Err(_) => { v.push("C10.safety".into()); return Ok(v); }
             Ok(None) => {}
             Ok(Some((state, flag, is_load))) => {
-                if !is_load { chk(&mut v, "C06.snapshot-keeps-memory", flag); snap = Some(state); }
+                if !is_load { chk(&mut v, "C06.snapshot-keeps-memory", flag); chk(&mut v, "C01.snapshot-invisible", flag); snap = Some(state); }
                 else if let Some(sn) = &snap {
                     if std::env::var("VERIF_TRACE").is_ok() { eprintln!("snapshotted: {:?}\nreloaded:    {:?}", sn.iter().map(|(k, v, ver)| (k.clone(), v.chars().take(12).collect::<String>(), *ver)).collect::<Vec<_>>(), state.iter().map(|(k, v, ver)| (k.clone(), v.chars().take(12).collect::<String>(), *ver)).collect::<Vec<_>>()); }
                     // ---- restart after the last completed snapshot: exactly the snapshotted state (live keys, values byte for byte, versions), same id and strategy
